@@ -12,7 +12,7 @@ use khttp::verif::{self, Event};
 use khttp::{ConnectionSetupAction, Server};
 use std::collections::HashMap;
 use std::io::{Read, Write};
-use std::net::{TcpListener, TcpStream};
+use std::net::TcpStream;
 use std::sync::atomic::{AtomicBool, Ordering};
 use std::sync::Arc;
 use std::time::{Duration, Instant};
@@ -31,7 +31,7 @@ pub fn run(case: &str) -> String {
     let (workers, nconn, maxreq, addfail, salt) = (f[0] as usize, f[1] as usize, f[2], f[3] as usize, f[4]);
     let _ = verif::take_log();
     let (a64a0, a64f0) = (crate::A64_ALLOCS.load(Ordering::SeqCst), crate::A64_FREES.load(Ordering::SeqCst));
-    let port = { let l = TcpListener::bind("127.0.0.1:0").unwrap(); l.local_addr().unwrap().port() };
+    let port = listen_port();
     let stop = Arc::new(AtomicBool::new(false));
     let mut b = Server::builder(("127.0.0.1", port)).unwrap();
     b.thread_count(workers);
